@@ -50,10 +50,10 @@ CHECKS = {
     "C13": ("history monitor + linearizability checker (WGL search, memoised) against a sequential map-with-expiry model; client-boundary call/return records",
             "Held on K sequential and concurrent histories for both stores except the listed known findings: sequential conformance after every op, and every concurrent history (<= 20 ops, 2-4 tasks) has a linearization.",
             "4 C13", "Trusted: the sequential model (outcomes the statement leaves open are allowed both ways), one monotonic clock for call/return stamps. Expiry is driven logically (TTL 0 vs hours)."),
-    "C14": ("hooked in-process frame-script driver + raw TCP client against a real pavex server; byte-identity/limit oracle",
+    "C14": ("hooked in-process frame-script driver + raw TCP client against a real pavex server; byte-identity/limit oracle; thorough tier: the hooked workload is also interpreted by Miri (undefined-behaviour sanitizer)",
             "Held on K (limit, length, framing, Content-Length) cases incl. all splits of small bodies into <= 4 frames: Ok => <= N bytes and byte-identical, over-limit => size-limit error, never a panic.",
             "4 C14", "Trusted: the harness's frame-script Body implementation; hyper rejects malformed Content-Length before pavex over TCP (those variants only via the hook)."),
-    "C15": ("round-trip monitor: independent percent/form/JSON encoder -> public extractors -> value equality; malformed inputs must yield the documented error",
+    "C15": ("round-trip monitor: independent percent/form/JSON encoder -> public extractors -> value equality; malformed inputs must yield the documented error; thorough tier: shards of the workload are also interpreted by Miri (undefined-behaviour sanitizer)",
             "Held on K (shape, value, encoding) cases except the listed known findings: decoded == original for path/query/form/JSON; malformed inputs give Err of the documented variant, never a panic.",
             "4 C15", "Trusted: the independent encoders in the harness; matchit as the provider of raw path params (as in generated code)."),
     "C16": ("event-order monitor on a real server under seeded shutdown points, injected delays at hook points and stalled workers; per-connection-class oracle",
